@@ -107,6 +107,16 @@ structure ReaderI (ρ : Type) where
 structure SkipNI (ρ : Type) where
   skipN : ρ → Int → GM ((Bytes × GoErr) × ρ)
 
+/-- the behaviour of a `bufiox.Writer` interface value. `malloc w n` hands out a region: its (arbitrary) initial contents,
+    a handle and the error; the bytes the function stores in the region are given back with `commit w handle contents`
+    before the function returns (the region aliases the writer's memory: whatever is in it when the function returns is
+    what the writer holds). `writeBinary w v` returns the reported count and the error. -/
+structure WriterI (ω : Type) where
+  malloc : ω → Int → GM ((Bytes × Nat × GoErr) × ω)
+  commit : ω → Nat → Bytes → ω
+  writeBinary : ω → Bytes → GM ((Int × GoErr) × ω)
+  writtenLen : ω → Int
+
 /-- `dirtmake.Bytes(n, n)`: a fresh slice of length n with arbitrary contents (zeros here); a negative length panics -/
 def dirtyBytes (n : Int) : GM Bytes :=
   if n < 0 then .panic "makeslice" else .ok (List.replicate n.toNat 0)
